@@ -455,6 +455,53 @@ func (x *r4mExec) stmt(st ast.Stmt, p *r4mPath) []*r4mPath {
 				return []*r4mPath{p}
 			}
 		}
+		if s.Tag == nil && s.Init == nil {
+			// a tagless switch is an if / else-if chain over its clauses in source order
+			var chain func(i int, w *r4mPath) []*r4mPath
+			chain = func(i int, w *r4mPath) []*r4mPath {
+				// the next clause with conditions; the default clause is taken when none holds
+				for i < len(s.Body.List) && s.Body.List[i].(*ast.CaseClause).List == nil {
+					i++
+				}
+				if i >= len(s.Body.List) {
+					for _, cl := range s.Body.List {
+						if cc := cl.(*ast.CaseClause); cc.List == nil {
+							return x.switchBody(cc.Body, w)
+						}
+					}
+					return []*r4mPath{w}
+				}
+				cc := s.Body.List[i].(*ast.CaseClause)
+				var cond ast.Expr = cc.List[0]
+				for _, e := range cc.List[1:] {
+					cond = &ast.BinaryExpr{X: cond, Op: token.LOR, Y: e}
+				}
+				var out []*r4mPath
+				work := []*r4mPath{w}
+				for len(work) > 0 {
+					q := work[0]
+					work = work[1:]
+					v, fork := x.cond(q, cond)
+					if v < 0 && fork != "" {
+						a, b := q.clone(), q.clone()
+						a.decided[fork], b.decided[fork] = true, false
+						work = append(work, a, b)
+						continue
+					}
+					switch v {
+					case 1:
+						out = append(out, x.switchBody(cc.Body, q)...)
+					case 0:
+						out = append(out, chain(i+1, q)...)
+					default:
+						out = append(out, x.switchBody(cc.Body, q.clone())...)
+						out = append(out, chain(i+1, q)...)
+					}
+				}
+				return out
+			}
+			return chain(0, p)
+		}
 		p.undec = "switch at " + x.c.Pos(s.Pos())
 		return []*r4mPath{p}
 	case *ast.ReturnStmt:
@@ -501,6 +548,19 @@ func (x *r4mExec) stmt(st ast.Stmt, p *r4mPath) []*r4mPath {
 		return []*r4mPath{p}
 	}
 	return []*r4mPath{p}
+}
+
+// switchBody runs a clause body; a `break` ending it only leaves the switch.
+func (x *r4mExec) switchBody(body []ast.Stmt, p *r4mPath) []*r4mPath {
+	out := x.run(body, []*r4mPath{p})
+	for _, q := range out {
+		if q.outcome == "done" && len(body) > 0 {
+			if br, ok := body[len(body)-1].(*ast.BranchStmt); ok && br.Tok == token.BREAK && br.Label == nil {
+				q.outcome = ""
+			}
+		}
+	}
+	return out
 }
 
 // ---- rows ----
